@@ -19,6 +19,7 @@ import (
 	"strconv"
 	"strings"
 	"sync"
+	"sync/atomic"
 	"time"
 
 	"github.com/containerd/containerd/v2/core/remotes/docker"
@@ -120,6 +121,8 @@ type machine struct {
 	handles  []*handle
 	byGoid   sync.Map
 	syncOK   bool
+	stress   bool
+	calls    uint64
 	mu       sync.Mutex
 	openMeta int
 	objIDs   map[any]int
@@ -175,6 +178,9 @@ func (h *handler) Handle(ctx context.Context, desc ocispec.Descriptor) (remote.F
 // external is called from inside an external call: a Resolve goroutine is suspended here until the harness
 // resumes it with the outcome; calls made synchronously by the harness itself take the preset outcome.
 func (m *machine) external(kind int) bool {
+	if m.stress {
+		return atomic.AddUint64(&m.calls, 1)%7 != 0 // truly concurrent mode: no suspension, every 7th external call fails
+	}
 	v, ok := m.byGoid.Load(goid())
 	if !ok {
 		return m.syncOK
@@ -543,6 +549,80 @@ func (m *machine) quiesce() {
 	}
 }
 
+// stress: truly concurrent resolvers (thorough tier; meant for the race-detector build). Workers resolve, use, release
+// (Done or Close) layers of three names while another goroutine fires expiry; no suspension, every 7th external call fails.
+// Only the model-free oracle applies (the schedule is not reproducible): a held layer is usable; afterwards all is reclaimed.
+func stress(seed uint64) []string {
+	m := newMachine()
+	defer m.cleanup()
+	m.stress = true
+	var wg sync.WaitGroup
+	var pmu sync.Mutex
+	var problems []string
+	stop := make(chan struct{})
+	go func() {
+		r := hx.NewRng(seed + 99)
+		for {
+			select {
+			case <-stop:
+				return
+			default:
+			}
+			key := layer.VerifCacheKeyC12(refOf(r.Intn(nnames)), descOf())
+			if r.Bool() {
+				m.res.VerifExpireLayerC12(key)
+			} else {
+				m.res.VerifExpireBlobC12(key)
+			}
+			time.Sleep(200 * time.Microsecond)
+		}
+	}()
+	for w := 0; w < 6; w++ {
+		wg.Add(1)
+		go func(w int) {
+			defer wg.Done()
+			r := hx.NewRng(seed*31 + uint64(w))
+			for i := 0; i < 25; i++ {
+				n := r.Intn(nnames)
+				l, err := m.res.Resolve(context.Background(), failingHosts, refOf(n), descOf())
+				if err != nil {
+					continue
+				}
+				l.SkipVerify() // as fs.Mount does, unsynchronised with the other holders of the shared layer
+				_, rootErr := l.RootNode(0)
+				data, fileErr := layer.VerifReadFileC12(l, "a.txt", len(fileData)+8)
+				if fileErr == nil && !bytes.Equal(data, fileData) {
+					fileErr = fmt.Errorf("wrong contents")
+				}
+				p := make([]byte, 4)
+				_, blobErr := l.ReadAt(p, 0)
+				if rootErr != nil || fileErr != nil || blobErr != nil {
+					pmu.Lock()
+					problems = append(problems, fmt.Sprintf("concurrent mode: held layer of name %d is not usable: root=%v file=%v blob=%v", n, rootErr, fileErr, blobErr))
+					pmu.Unlock()
+				}
+				if r.Chance(1, 3) {
+					l.Close()
+				} else {
+					l.Done()
+				}
+			}
+		}(w)
+	}
+	wg.Wait()
+	close(stop)
+	time.Sleep(time.Millisecond)
+	for n := 0; n < nnames; n++ {
+		key := layer.VerifCacheKeyC12(refOf(n), descOf())
+		m.res.VerifExpireLayerC12(key)
+		m.res.VerifExpireBlobC12(key)
+	}
+	if v := m.view(); v != [3]int{0, 0, 0} {
+		problems = append(problems, fmt.Sprintf("concurrent mode: after all workers released and everything expired: %d fscache dirs, %d httpcache dirs, %d open metadata readers remain", v[0], v[1], v[2]))
+	}
+	return problems
+}
+
 func run(c Case) *machine {
 	m := newMachine()
 	defer m.cleanup()
@@ -659,8 +739,23 @@ func main() {
 		emit(c)
 	}
 	r := hx.NewRng(ctx.Seed)
-	for i := len(corpus); i < ctx.N; i++ {
+	nstress := 0
+	if ctx.Tier == "thorough" {
+		nstress = ctx.N / 25
+		if nstress < 4 {
+			nstress = 4
+		}
+	}
+	for i := len(corpus); i < ctx.N-nstress; i++ {
 		emit(gen(r.Fork()))
+	}
+	for i := 0; i < nstress; i++ {
+		problems := stress(ctx.Seed*1000 + uint64(i))
+		ctx.Count("stress")
+		id := ctx.Case("([], [])", Case{}, fmt.Sprintf("stress-%d", i), false)
+		for _, p := range problems {
+			ctx.Violation(id, p, nil)
+		}
 	}
 	ctx.Finish()
 }
